@@ -535,7 +535,8 @@ func sameFullMaps(a, b z.ZogIssueMap) bool {
 func c13Post(kind string) {
 	x := v.Int("x")
 	v.Assume(v.And(x != 0, v.And(x > -1000000, x < 1000000)))
-	failAt := v.Choice("fail-at", 4) // which of the three transforms returns an error (3 = none)
+	failAt := v.Choice("fail-at", 4)          // which of the three transforms returns an error (3 = none)
+	asIssue := v.Choice("error-kind", 2) == 1 // a plain error, or a *ZogIssue built from the context
 	mk := func(log *string, k int) z.PostTransform {
 		return func(p any, ctx z.Ctx) error {
 			*log += string(rune('a' + k))
@@ -550,6 +551,9 @@ func c13Post(kind string) {
 				}
 			}
 			if k == failAt {
+				if asIssue {
+					return ctx.Issue().SetCode("from_transform").SetMessage("m")
+				}
 				return errFail
 			}
 			return nil
